@@ -386,6 +386,10 @@ func GSchemas(thorough bool) []GSchema {
 	sp("constref/array", root(gStruct("es", gArr(gConstRef("E", "a")))))
 	sp("constref/discriminator", root(gStruct("u", gUnion(gRef("CA"), gRef("CB")))),
 		GObj{Name: "CA", T: gStruct("kind", gConstRef("E", "a"))}, GObj{Name: "CB", T: gStruct("kind", gConstRef("E", "b"))})
+	// constant references whose target is not a leaf (an alias of an enum)
+	sp("constref/alias", root(gStruct("level", gConstRef("Sev", "a"))), GObj{Name: "Sev", T: gRef("E")})
+	sp("constref/alias-chain", root(gStruct("level", gConstRef("Sev2", "b"))), GObj{Name: "Sev2", T: gRef("Sev")}, GObj{Name: "Sev", T: gRef("E")})
+	sp("constref/alias+base", root(gStruct("level", gConstRef("Sev", "a"), "base?", gRef("Base"))), GObj{Name: "Base", T: gStruct("level", gRef("Sev"))}, GObj{Name: "Sev", T: gRef("E")})
 	sp("constref/only-use", root(gStruct("e", gConstRef("E", "a"), "s", gRef("S"))))
 	// naming collisions
 	sp("samelast/two-paths", root(gStruct("a", gRef("X"), "b", gRef("sub/X"))), GObj{Name: "X", T: gStruct("p", gStr())}, GObj{Name: "sub/X", T: gStruct("q", gInt())})
@@ -406,7 +410,7 @@ func GSchemas(thorough bool) []GSchema {
 	// alias chains
 	sp("chain/3", root(gStruct("r", gRef("R2"))), GObj{Name: "R2", T: gRef("R")})
 	// variants of the document form
-	for _, base := range []string{"field/S", "array/E", "nested/S", "union2/field/const", "rec/field", "root-alias/S"} {
+	for _, base := range []string{"field/S", "array/E", "nested/S", "union2/field/const", "rec/field", "root-alias/S", "constref/alias", "constref/alias-chain", "constref/alias+base"} {
 		for _, s := range out {
 			if s.Name == base {
 				c := s
